@@ -175,16 +175,20 @@ func main() {
 	for i, c := range cases {
 		res, err := p.Run(c)
 		if err != nil {
+			// On the unchanged library no Run function returns an error (every check is green), so an
+			// error here means the library refused or mishandled an input the harness built as valid,
+			// or contradicted the documented contract: in both cases this case is the failing input.
+			msg := "the library did not let the harness complete this case: " + err.Error()
 			var iv *ImplViolation
 			if errors.As(err, &iv) {
-				meta.Evaluations++
-				meta.Kinds[c.Kind]++
-				meta.ContractViolations = append(meta.ContractViolations, i)
-				meta.Cases = append(meta.Cases, CaseRec{ID: i, Case: c, Obs: map[string]any{"contract_violation": iv.Msg}})
-				continue
+				msg = iv.Msg
 			}
-			fmt.Fprintf(os.Stderr, "case %d: %v\n", i, err)
-			os.Exit(3)
+			fmt.Fprintf(os.Stderr, "case %d: %s\n", i, msg)
+			meta.Evaluations++
+			meta.Kinds[c.Kind]++
+			meta.ContractViolations = append(meta.ContractViolations, i)
+			meta.Cases = append(meta.Cases, CaseRec{ID: i, Case: c, Obs: map[string]any{"contract_violation": msg}})
+			continue
 		}
 		meta.Evaluations++
 		meta.Kinds[c.Kind]++
